@@ -257,10 +257,25 @@ def _pairs_shard(task):
             p.violation(v[0], v[1], {"kind": "triple", "fmt": fb, "a": tri[0], "b": tri[1], "c": tri[2], "flush": flush})
         p.count(1, "f%d/triple" % fb)
         if fb > 16 and t % 4 == 0:
-            bits4 = (a, b, c, int(zb[(t + 1) % n]))
-            for v in check_complex(fb, bits4, flush):
-                p.violation(v[0], v[1], {"kind": "complex", "fmt": fb, "bits": bits4, "flush": flush})
-            p.count(1, "f%d/complex" % fb)
+            d = int(zb[(t + 1) % n])
+            sm = f.sign_mask
+            # an unrelated pair, and structured pairs: conjugates, negatives, one component shared, a component shared up
+            # to its sign, equal real and imaginary parts, neighbours across zero in one direction
+            variants = [
+                (a, b, c, d),
+                (a, b, a, b ^ sm),
+                (a, b, a ^ sm, b ^ sm),
+                (a, b, a ^ sm, b),
+                (a, b, c, b),
+                (a, b, a, d),
+                (a, b, c, b ^ sm),
+                (a, a, c, c ^ sm),
+                (a, b & (sm | 0x7), a, (b & 0x7) | ((b ^ sm) & sm)),
+            ]
+            for bits4 in variants[: 1 + (t // 4) % len(variants)] if t % 8 else variants:
+                for v in check_complex(fb, bits4, flush):
+                    p.violation(v[0], v[1], {"kind": "complex", "fmt": fb, "bits": list(bits4), "flush": flush})
+                p.count(1, "f%d/complex" % fb)
         if t % 16 == 0:
             L1 = [int(q) for q in xb[t : t + int(rng.integers(1, 4))]]
             L2 = [int(q) for q in yb[t : t + int(rng.integers(1, 4))]]
